@@ -28,7 +28,7 @@ def apply_ops(sections, ops):
         i = find(sec)
         key = key.strip()        # a key written into a file cannot start with blanks (that would be a continuation line)
         if i is None: secs.append((sec, [(key, val)])); continue
-        if any(norm(k) == norm(key) for k, v in secs[i][1]): return None, 'duplicate'
+        if any(norm(k) == norm(key) for k, v in secs[i][1]): return None, 'duplicate'      # already in the file, or added earlier on the same command line
         secs[i][1].append((key, val))
     return secs, None
 
@@ -40,7 +40,10 @@ def check_case(rep, case, name):
     tab = [('target', 'LAMMPS'), ('nr', '12'), ('cutoff', '5.5')]
     sections = [('Tabulation', tab), ('Pair', entries)]
     if case.get('variables'):
-        sections = [('Variables', [('scale', '2.0'), ('unused', '7')])] + sections
+        vs = [('scale', '2.0'), ('unused', '7')]
+        # variables whose names are the keys the operations address in OTHER sections: a variable is not an item of those sections
+        if case.get('collide'): vs += [('Zr-Zr', 'as.zero'), ('Xx-Xx', 'as.zero'), ('nr', '99')]
+        sections = [('Variables', vs)] + sections
     def text(secs): return render([], secs)
     ops = [tuple(o) for o in case['ops']]
     edited, err = apply_ops(sections, ops)
@@ -113,7 +116,10 @@ def gen_case(rng):
             if nk in seen and seen[nk] != (o[0], o[2]): continue
             seen[nk] = (o[0], o[2])
         ops2.append(o)
-    return dict(seed=seed, ops=ops2, variables=rng.random() < 0.3)
+    # the same new item added twice in one command line: the hand-edited file would hold the key twice (a duplicate: configuration error)
+    if rng.random() < 0.15: ops2.append(('add', 'Pair', 'Zr-Zr', 'as.polynomial 2.0'))
+    variables = rng.random() < 0.4
+    return dict(seed=seed, ops=ops2, variables=variables, collide=variables and rng.random() < 0.6)
 
 def extra_cases(rep):
     # (1) API: an operation naming an item that an earlier operation of the same sequence removed refers to a missing item
@@ -127,6 +133,20 @@ def extra_cases(rep):
             ConfigParser(io.StringIO(text), overrides=ov); rep.dev('api-' + nm, dict(kind='api-sequence', name=nm), 'accepted', 'configuration error: the item no longer exists when the second operation is applied')
         except ConfigurationException: rep.ok()
         except Exception as e: rep.dev('api-' + nm, dict(kind='api-sequence', name=nm), 'exception %r' % (e,), 'configuration error')
+    # (1b) CLI: the same new item added twice (in one option, across two options, with another spelling): the hand-edited file would
+    #      hold the key twice, which is a duplicate-entry configuration error; a single addition of it is accepted
+    for nm, argv in (('one-option', ['--add-item', 'Pair:Zr-Zr=as.polynomial 1.0', 'Pair:Zr-Zr=as.polynomial 2.0']),
+                     ('two-options', ['--add-item', 'Pair:Zr-Zr=as.polynomial 1.0', '--add-item', 'Pair:Zr-Zr=as.polynomial 2.0']),
+                     ('two-spellings', ['--add-item', 'Pair:Zr-Zr=as.polynomial 1.0', 'Pair:Zr - Zr=as.polynomial 2.0'])):
+        rep.case('cli-add-twice', nm)
+        code, so, se, got = potable(argv, text)
+        if code == 0 or 'configuration error' not in se:
+            rep.dev('cli-add-twice-' + nm, dict(kind='cli-two-sections', name=nm), 'exit %r, %d bytes written, stderr %r' % (code, len(got or ''), se[-100:]), 'configuration error (the item is added twice)')
+        else: rep.ok()
+    rep.case('cli-add-twice', 'single')
+    code, so, se, got = potable(['--add-item', 'Pair:Zr-Zr=as.polynomial 1.0'], text)
+    if code != 0: rep.dev('cli-add-once', dict(kind='cli-two-sections', name='single'), 'exit %r %r' % (code, se[-100:]), 'accepted')
+    else: rep.ok()
     # (2) CLI: the same key edited in two different sections in one invocation
     sp_, head, embed, dens, pairs = eam_model(random.Random(3), fs=False)
     tabl = [tuple(l.split(' : ')) for l in head if ' : ' in l]
